@@ -100,13 +100,16 @@ fn serialize_list(arr: &[Primitive], out: &mut impl io::Write) -> Result<()> {
 
 pub fn serialize_name(s: &str, out: &mut impl io::Write) -> Result<()> {
     write!(out, "/")?;
-    for b in s.chars() {
+    for &b in s.as_bytes() {
         match b {
-            '\\' | '(' | ')' => write!(out, r"\")?,
-            c if c > '~' => panic!("only ASCII"),
-            _ => ()
+            // white-space, delimiters, '#' and everything outside the printable ASCII range are written as #xx
+            b'#' | b'(' | b')' | b'<' | b'>' | b'[' | b']' | b'{' | b'}' | b'/' | b'%'
+            | 0 ..= b' ' | 0x7f ..= 0xff => {
+                const HEX: &[u8; 16] = b"0123456789abcdef";
+                out.write_all(&[b'#', HEX[(b >> 4) as usize], HEX[(b & 0xf) as usize]])?;
+            }
+            _ => out.write_all(&[b])?,
         }
-        write!(out, "{}", b)?;
     }
     Ok(())
 }
